@@ -113,4 +113,20 @@ def flow(n: int, c: Color) -> int:
 	return total + len(ys) + len(ds)
 '''
 
-ALL = {'shape_generic': GENERIC, 'shape_pairs': PAIRS, 'shape_flow': FLOW}
+DOCONLY = """'''a module that holds nothing but its docstring'''
+"""
+
+DOCFIRST = """'''module docstring'''
+'second string statement'
+
+def documented(n: int) -> int:
+	'''function docstring'''
+	'another string statement'
+	return n
+
+class Documented:
+	'''class docstring'''
+	n: int = 0
+"""
+
+ALL = {'shape_generic': GENERIC, 'shape_pairs': PAIRS, 'shape_flow': FLOW, 'shape_doconly': DOCONLY, 'shape_docfirst': DOCFIRST}
